@@ -140,7 +140,7 @@ func (h Header) MessageType() MessageType {
 
 // SetMessageType sets message type.
 func (h *Header) SetMessageType(mt MessageType) {
-	h[2] = h[2] | (byte(mt) << 7)
+	h[2] = (h[2] &^ 0x80) | (byte(mt) << 7)
 }
 
 // IsHeartbeat returns whether the message is heartbeat message.
